@@ -332,11 +332,17 @@ def print_func_op_like(
 
     # Non-variadic declaration
     if not body.blocks and not is_variadic:
-        if print_empty_outputs:
+        if print_empty_outputs and arg_attrs is None and res_attrs is None:
             printer.print_attribute(function_type)
         else:
             printer.print_string("(")
-            printer.print_list(function_type.inputs, printer.print_attribute)
+            if arg_attrs is not None:
+                printer.print_list(
+                    zip(function_type.inputs, arg_attrs),
+                    lambda t: print_func_output(printer, t[0], t[1]),
+                )
+            else:
+                printer.print_list(function_type.inputs, printer.print_attribute)
             printer.print_string(")")
             _print_func_outputs(printer, function_type.outputs.data, res_attrs)
         printer.print_op_attributes(
@@ -466,6 +472,9 @@ def parse_func_op_like(
     # Track variadic state if enabled
     is_variadic = False
 
+    # Attributes of the arguments of a declaration (arguments given by type only)
+    decl_arg_attrs: list[dict[str, Attribute]] = []
+
     def parse_fun_input() -> (
         Attribute | tuple[Parser.Argument, dict[str, Attribute]] | None
     ):
@@ -494,8 +503,8 @@ def parse_func_op_like(
             ret = parser.parse_optional_type()
             if ret is None:
                 parser.raise_error("Expected argument or type")
-            # Declarative args keep only the type and consume attributes and location.
-            parse_optional_attrs_and_loc()
+            # Declarative args keep the type and the attributes and consume the location.
+            decl_arg_attrs.append(parse_optional_attrs_and_loc()[0])
         else:
             arg_attr_dict, arg_loc = parse_optional_attrs_and_loc()
             arg.location = arg_loc
@@ -532,6 +541,8 @@ def parse_func_op_like(
 
     if any(attrs for _, attrs in entry_arg_tuples):
         arg_attrs = ArrayAttr(DictionaryAttr(attrs) for _, attrs in entry_arg_tuples)
+    elif any(decl_arg_attrs):
+        arg_attrs = ArrayAttr(DictionaryAttr(attrs) for attrs in decl_arg_attrs)
     else:
         arg_attrs = None
 
